@@ -227,7 +227,7 @@ func Main(prop string) {
 		if len(terms) == 0 {
 			return
 		}
-		run.WriteCasesV(fmt.Sprintf("cases_%d.v", start), []string{"Lib.Json", "DiffMerge.Model", "Server.Model", "Server.Release", "Server.Queries", "Server.Check"}, "", "mismatches_from_sparse", 0, terms)
+		run.WriteCasesV(fmt.Sprintf("cases_%d.v", start), []string{"Lib.Json", "DiffMerge.Model", "Server.Model", "Server.Release", "Server.Queries", "Server.Iface", "Server.Check"}, "", "mismatches_from_sparse", 0, terms)
 		terms = nil
 	}
 	for idx, co := range outs {
@@ -293,6 +293,27 @@ func Main(prop string) {
 			if ct.ClosedGen < 0 {
 				run.Hist("schedule:close-task-found-nothing")
 			}
+		}
+		if c.Spawn {
+			run.Hist("option:always-spawn-goroutine")
+		}
+		if c.IntervalMs > 0 {
+			run.Hist("option:min-rerun-interval-20-30ms")
+		}
+		for _, e := range co.res.Events {
+			if e.Kind == "rx" && e.Point != "locked" {
+				run.Hist("rerunner:" + e.Point)
+			}
+		}
+		// premises of the composed theorems, as far as a case can show them: a subscription that was live, with its
+		// client present, at a point where everything had come to rest after a data change (live_convergence); a
+		// subscription that ended and whose data changed afterwards (never_computes_after_end: every case, the
+		// harness changes everything after the end)
+		if later && len(co.res.Snaps) > 0 {
+			run.Hist("premise:live-subscription-at-rest-after-change")
+		}
+		if ended > 0 {
+			run.Hist("premise:ended-subscription-then-data-changed")
 		}
 		run.Hist(fmt.Sprintf("generations:%d", min(len(v.gens), 6)))
 		run.Hist("origin:" + strings.SplitN(c.Origin, ":", 2)[0])
